@@ -95,7 +95,7 @@ class PointLocal(FragmentTask):
 
 
 def api_tasks(tier):
-    out = [PointLocal(2, 0), PointLocal(2, 1)]
+    out = [PointLocal(2, 0), PointLocal(2, 1), PointMatch()]
     if tier == "thorough":
         out += [PointLocal(3, 0), PointLocal(3, 1), PointLocal(3, 2), PointLocal(1, 0)]
     return out
@@ -118,3 +118,55 @@ def tasks(tier):
 
 def canaries(tier):
     return api_canaries()
+
+
+class PointMatch(FragmentTask):
+    """The matching loop of __call__ and the choice of the finest matching level, on a two-level skeleton in which a fine box
+    lies across the face shared by two coarse boxes (concrete index ranges; domain origin and cell sizes symbolic): for the
+    centre of ANY interior cell of the fine box (at least one cell from its faces) - including the cells touching the coarse
+    face - the finest level holding the point is level 1 for all three matchings, and the single inner match is the fine box:
+    the query is answered from the finest level covering the point."""
+    prop = "C19"
+    reach = "S"
+    qual = SEL + "__call__"
+    first = staticmethod(_src("box_matches_exact = {}"))
+    last = staticmethod(_src("match_lv_outer = "))
+
+    def __init__(self):
+        self.name = "LevelDataSelector.__call__.finest-covering-level[fine box across a coarse face]"
+
+    def setup(self, ex):
+        ctx = ex.ctx
+        glo = [z3.Real(f"glo{d}") for d in range(3)]
+        dx0 = [z3.Real(f"dx{d}") for d in range(3)]
+        for d in range(3):
+            ctx.assume(dx0[d] > 0)
+        dx1 = [x / 2 for x in dx0]
+        co = lambda d, i, dx: glo[d] + i * dx[d]
+        # level 0: cells 0..7 and 8..15 in x, 0..7 in y, z;  level 1 (fine cells): 8..23 in x (across coarse x = 8 <=> fine 16), 4..11 in y, z
+        b0 = [[[co(0, 0, dx0), co(0, 8, dx0)], [co(1, 0, dx0), co(1, 8, dx0)], [co(2, 0, dx0), co(2, 8, dx0)]],
+              [[co(0, 8, dx0), co(0, 16, dx0)], [co(1, 0, dx0), co(1, 8, dx0)], [co(2, 0, dx0), co(2, 8, dx0)]]]
+        b1 = [[[co(0, 8, dx1), co(0, 24, dx1)], [co(1, 4, dx1), co(1, 12, dx1)], [co(2, 4, dx1), co(2, 12, dx1)]]]
+        # the point: centre of an interior fine cell (cx in 9..22, cy, cz in 5..10)
+        pt = [z3.Real(f"p{d}") for d in range(3)]
+        rng = [(9, 22), (5, 10), (5, 10)]
+        for d in range(3):
+            ctx.assume(z3.Or(*[pt[d] == glo[d] + (z3.RealVal(c) + z3.RealVal("1/2")) * dx1[d] for c in range(rng[d][0], rng[d][1] + 1)]))
+        self_ = Record(PC + "LevelDataSelector", limit_level=1, boxes=[b0, b1], dx=[list(dx0), list(dx1)], geo_low=list(glo))
+        return {"frame": {"self": self_, "point": Vec(pt, "array")}}
+
+    def post(self, ex, inp, out):
+        ctx = ex.ctx
+        ctx.oblige("raises-nothing", out.kind == "ret", "P", note=str(out.exc) if out.kind != "ret" else "")
+        if out.kind != "ret":
+            return
+        v = out.value
+        for k in ("match_lv_exact", "match_lv_inner", "match_lv_outer"):
+            ctx.oblige(f"post.{k}-is-the-fine-level", veq(ctx, v.get(k), 1), "P", note=str(v.get(k)))
+        inner = v.get("box_matches_inner", {}).get(1)
+        ok = inner is not None
+        ctx.oblige("post.inner-matches-of-the-fine-level-recorded", ok, "P")
+        if ok:
+            from pyvc.ops import as_ndarray
+            a = as_ndarray(inner)
+            ctx.oblige("post.the-single-inner-match-is-the-fine-box", zand(to_z3(a.shape[0]) == 1, to_z3(a.elem((0,))) == 0), "P")
